@@ -11,15 +11,18 @@ LEVEL = 'proof'
 
 MANIFEST = dict(
     text='Theorems (Coq): every key hash the UTXOW rule requires for the emitted transaction (key-locked inputs and collateral, '
-         'required signers, native-script key leaves through all/any/n-of-k incl. scripts attached by add_*_script, the credentials of '
+         'required signers, native-script key leaves through all/any/n-of-k incl. scripts attached by add_*_script whether they travel '
+         'in the witness set, in a separate reference UTxO, in the spent UTxO or are found by the builder in the context, the credentials of '
          'the 16 witness-needing certificate kinds with pool operator AND owners, key reward accounts, key voters) is in the '
-         'builder\'s required set, and the builder adds nothing but the legacy-registration key; the witnesses of build_and_sign are '
+         'builder\'s required set, and the builder adds nothing but the legacy-registration key (side conditions refs_registered / '
+         'refs_used on how reference scripts are handed over, decidable and evaluated on every scenario); the witnesses of build_and_sign are '
          'exactly (32-byte key, signature of blake2b-256(body)) of the supplied keys that are required (all when forced), one per key '
          'hash, ordinary and extended keys alike; the placeholder witnesses are as many as distinct required hashes (<=256), 32+64 '
          'bytes, pairwise distinct; BIP32ED25519PrivateKey.sign satisfies S.B = R + h.A from the group laws (scalar arithmetic mod L '
          'explicit). Tie: slice correspondence of all collectors on prepared real builders, build_and_sign end to end, and the '
          'oracle (independent RFC 8032 verification over the body slice of tx.to_cbor(), witness set = supplied /\\ required read '
-         'from the transaction itself) on the implementation\'s signed transactions.',
+         'from the transaction itself, reference inputs resolved through the scenario\'s UTxO table and a referenced native script '
+         'counted when its hash (hashlib over the CBOR Coq produces) is one the transaction needs) on the implementation\'s signed transactions.',
     note='Trusted: Coq kernel+vm_compute; hand model Witness.v tied by correspondence; hashlib BLAKE2b; tools/refcrypto RFC 8032; the '
          'harness CBOR walker (cross-checked against Cbor.decode in Coq). Assumed, in the statements: group laws, L.B=0, point '
          'compression invertible; NaCl ordinary-key signing verifies (C10_witnesses_valid only). No axioms.',
@@ -29,7 +32,9 @@ TRUSTED = [
     'Coq 8.16.1 kernel incl. vm_compute (no native_compute); no axioms (see Print Assumptions lines)',
     'hand model coq/theories/Witness.v of txbuilder.py (_*_vkey_hashes, _build_required_vkeys, _witness_count, '
     '_build_fake_vkey_witnesses, build_and_sign witness loop), key.py, witness.py, crypto/bip32.py sign — tied by correspondence',
-    'specification transcription Witness.Ledger (Conway UTXOW witsVKeyNeeded + native-script key leaves)',
+    'specification transcription Witness.Ledger (Conway UTXOW witsVKeyNeeded + key leaves of native scripts in the witness set and of '
+    'needed native scripts in reference / spent outputs; scriptsNeeded = script inputs, policies, script certificates/withdrawals/voters)',
+    'the harness\'s native-script CBOR encoder ns_enc (cross-checked: Coq re-encodes every script with Cbor.enc and must find the digest)',
     'tools/impl/witness_driver.py, this generator, the harness CBOR length-walker (its body slice is re-derived in Coq by Cbor.decode/enc)',
     'hashlib BLAKE2b-224/256 and tools/refcrypto/ed25519_ref.py (RFC 8032 verification, public keys and reference signatures)',
 ]
@@ -39,8 +44,12 @@ ASSUMPTIONS = [
     'libsodium scalar_reduce / scalar_mul / scalar_add / scalarmult_base_noclamp behave as modelled (x mod L arithmetic on little-endian '
     '32-byte strings; bit 255 of the scalar cleared); the zero-scalar failure of scalarmult_base_noclamp (probability 2^-252) is not modelled',
     'extended signing keys are laid out kL kR A cc with A = kL.B and kL < 2^255 (what HDWallet derivation produces)',
-    'scenarios contain native scripts only (no Plutus): self.scripts non-empty iff a native script is present; inputs are explicit '
-    '(no coin selection), so the builder description given to the model is the one the transaction is built from',
+    'scenarios contain native scripts only (no Plutus); inputs are explicit (no coin selection), so the builder description given to '
+    'the model is the one the transaction is built from; when _reference_scripts is non-empty and no collateral is given the builder '
+    'picks collateral among the inputs (adds no key hash; checked per case: required sets of model and transaction agree)',
+    'domain restriction (explicit, checked by c10_domain): reference scripts are handed over through add_script_input / add_*_script '
+    'for a purpose the transaction has (refs_registered, refs_used); a script-locked UTxO added with plain add_input plus a hand-made '
+    'reference input, or add_minting_script(<UTxO>) without minting under that policy, are outside',
 ]
 
 # regions of the input space with a reported, not yet answered defect: kept out of oracle_fail, counted in known_region_hits
@@ -63,6 +72,33 @@ def b224(b):
 
 def b256(b):
     return hashlib.blake2b(b, digest_size=32).digest()
+
+
+def cb_uint(major, n):
+    if n < 24:
+        return bytes([major << 5 | n])
+    for ai, w in ((24, 1), (25, 2), (26, 4), (27, 8)):
+        if n < 1 << (8 * w):
+            return bytes([major << 5 | ai]) + n.to_bytes(w, 'big')
+    raise ValueError(n)
+
+
+def ns_enc(ns):
+    """CDDL native_script, definite lengths, shortest heads (the harness's own encoder)"""
+    k = ns[0]
+    if k == 'pk':
+        h = bytes.fromhex(ns[1])
+        return b'\x82\x00' + cb_uint(2, len(h)) + h
+    if k in ('all', 'any'):
+        return b'\x82' + (b'\x01' if k == 'all' else b'\x02') + cb_uint(4, len(ns[1])) + b''.join(ns_enc(x) for x in ns[1])
+    if k == 'nofk':
+        return b'\x83\x03' + cb_uint(0, ns[1]) + cb_uint(4, len(ns[2])) + b''.join(ns_enc(x) for x in ns[2])
+    return b'\x82' + (b'\x04' if k == 'before' else b'\x05') + cb_uint(0, ns[1])
+
+
+def ns_hash(ns):
+    """script hash of a native script: BLAKE2b-224(0x00 || CBOR)"""
+    return b224(b'\x00' + ns_enc(ns)).hex()
 
 
 def cb_head(b, p):
@@ -209,9 +245,12 @@ def gen_scenario(rng, U, alias, i, sign):
     want = set(rng.sample(['inputs', 'collateral', 'rs', 'native', 'attached', 'certs', 'withdrawals', 'voters'],
                           rng.randint(1, 5)))
     want.add(['inputs', 'collateral', 'rs', 'native', 'attached', 'certs', 'withdrawals', 'voters'][i % 8])
-    utxos, inputs, collateral, attached = [], [], [], []
-    def new_utxo(pay, coin, stake=None):
-        utxos.append(dict(txid=rng.randbytes(32).hex(), ix=rng.randint(0, 40), pay=pay, stake=stake, coin=coin))
+    utxos, inputs, collateral, attached, extra_refs = [], [], [], [], []
+    def new_utxo(pay, coin, stake=None, script=None):
+        u = dict(txid=rng.randbytes(32).hex(), ix=rng.randint(0, 40), pay=pay, stake=stake, coin=coin)
+        if script is not None:
+            u['script'] = script
+        utxos.append(u)
         return len(utxos) - 1
     inputs.append(new_utxo(['k', some_hash()], 100000 * ADA, cred() if rng.random() < 0.3 else None))
     if 'inputs' in want:
@@ -226,19 +265,58 @@ def gen_scenario(rng, U, alias, i, sign):
     native = ([gen_ns(rng, some_hash, rng.randint(1, 2 if sign else 4), 2 if sign else 3) for _ in range(1 if sign else rng.randint(1, 2))]
               if 'native' in want else None)
     if 'attached' in want:
+        # a native script is handed to the builder for a purpose (spend / mint / withdraw / certificate) and reaches the
+        # transaction in one of four ways (via):
+        #   witness  the script object is passed                           -> shipped in the witness set
+        #   ref      add_script_input(u, script=<UTxO>) / add_*_script(<UTxO>): a separate UTxO carries it -> reference input
+        #   self     the spent UTxO carries the script in its own output    -> neither witness set nor reference input
+        #   lookup   add_script_input(u) with nothing: the builder finds a UTxO carrying it at the script address (context)
+        lookup_addrs = set()
+        def attach(how, ns, via):
+            h = ns_hash(ns)
+            carried = [j for j, u in enumerate(utxos) if u.get('script') is not None and u['pay'] == ['s', h]]
+            if via == 'lookup' and (how != 'input' or carried):
+                via = 'ref'
+            if via == 'self' and (how != 'input' or h in lookup_addrs):
+                via = 'witness'
+            a = dict(how=how, ns=ns, via=via)
+            if how == 'input':
+                a['utxo'] = new_utxo(['s', h], 4 * ADA, script=ns if via == 'self' else None)
+                a['pass_obj'] = via == 'witness' or (via == 'self' and rng.random() < 0.5)
+                inputs.append(a['utxo'])
+            if via == 'ref':
+                holders = [j for j, u in enumerate(utxos) if u.get('script') == ns and j not in inputs and u['pay'] != ['s', h]]
+                a['ref_utxo'] = (rng.choice(holders) if holders and rng.random() < 0.5
+                                 else new_utxo(cred(0.8), 20 * ADA, script=ns))
+            elif via == 'lookup':
+                a['ref_utxo'] = new_utxo(['s', h], 20 * ADA, script=ns)
+                lookup_addrs.add(h)
+            attached.append(a)
+        def pick_via(how):
+            return rng.choice(['witness', 'ref', 'ref'] + (['self', 'lookup'] if how == 'input' else []))
         for _ in range(1 if sign and rng.random() < 0.7 else 2):
             ns = gen_ns(rng, some_hash, rng.randint(1, 2 if sign else 3), 2 if sign else 3)
             if ns[0] in ('before', 'after'):
                 ns = ['all', [ns, ['pk', some_hash()]]]
+            if json.dumps(ns) in [json.dumps(x['ns']) for x in attached]:
+                continue
             how = rng.choice(['input', 'input', 'mint', 'withdrawal', 'cert'])
-            a = dict(how=how, ns=ns)
-            if how == 'input':
-                a['utxo'] = new_utxo(['att', len(attached)], 4 * ADA)
-                inputs.append(a['utxo'])
-            if json.dumps(ns) not in [json.dumps(x['ns']) for x in attached]:
-                attached.append(a)
-            elif how == 'input':
-                utxos.pop(); inputs.pop()
+            attach(how, ns, pick_via(how))
+            if rng.random() < 0.3:                      # the same script for a second purpose, possibly supplied another way
+                how2 = rng.choice(['input', 'mint', 'withdrawal', 'cert'])
+                if how2 == 'input' or how2 != how:
+                    attach(how2, ns, pick_via(how2))
+        # reference inputs written to builder.reference_inputs by hand: without script, with an unrelated native script
+        # (not needed by the transaction: its keys must NOT be asked for), or with a copy of an attached script
+        if rng.random() < 0.35:
+            for _ in range(rng.randint(1, 2)):
+                r = rng.random()
+                scr = (None if r < 0.3 else
+                       rng.choice(attached)['ns'] if r < 0.5 and attached else
+                       ['all', [['pk', some_hash()], gen_ns(rng, some_hash, 1, 2)]])
+                if scr is not None and ns_hash(scr) in lookup_addrs:
+                    scr = None
+                extra_refs.append(new_utxo(cred(0.8), 15 * ADA, script=scr))
     certs = []
     if 'certs' in want:
         for _ in range(rng.randint(1, 4)):
@@ -282,25 +360,48 @@ def gen_scenario(rng, U, alias, i, sign):
         wo = rng.choice([0, 1, 3, 7])
     return dict(keys=U, supplied=supplied, force=rng.random() < 0.3, auto=rng.choice([None, None, True, False]),
                 utxos=utxos, inputs=inputs, collateral=collateral, required_signers=rs, native_scripts=native,
-                attached=attached, certs=certs, withdrawals=withdrawals, voters=voters, witness_override=wo,
-                change=['k', some_hash()], sign=sign)
+                attached=attached, extra_refs=extra_refs, certs=certs, withdrawals=withdrawals, voters=voters,
+                witness_override=wo, change=['k', some_hash()], sign=sign)
 
 
 def corpus(U):
-    """the three reproduced defects (fixed upstream of this check): they must satisfy the oracle now"""
+    """the three reproduced defects (fixed upstream of this check) must satisfy the oracle now; plus one fixed scenario per
+    way a native script can reach the transaction without travelling in the witness set"""
+    u0 = dict(txid='11' * 32, ix=0, pay=['k', U[0]['kh']], stake=None, coin=1000 * ADA)
     def base(**kw):
-        d = dict(keys=U, supplied=[0], force=False, auto=None, utxos=[dict(txid='11' * 32, ix=0, pay=['k', U[0]['kh']], stake=None, coin=1000 * ADA)],
-                 inputs=[0], collateral=[], required_signers=None, native_scripts=None, attached=[], certs=[], withdrawals=[],
-                 voters=[], witness_override=None, change=['k', U[0]['kh']], sign=True)
+        d = dict(keys=U, supplied=[0], force=False, auto=None, utxos=[dict(u0)],
+                 inputs=[0], collateral=[], required_signers=None, native_scripts=None, attached=[], extra_refs=[], certs=[],
+                 withdrawals=[], voters=[], witness_override=None, change=['k', U[0]['kh']], sign=True)
         d.update(kw)
         return d
     nofk = base(supplied=[0, 1, 2], native_scripts=[['nofk', 1, [['pk', U[1]['kh']], ['all', [['pk', U[2]['kh']]]]]]])
-    att = base(supplied=[0, 1], attached=[dict(how='input', ns=['all', [['pk', U[1]['kh']]]], utxo=1)],
-               utxos=[dict(txid='11' * 32, ix=0, pay=['k', U[0]['kh']], stake=None, coin=1000 * ADA),
-                      dict(txid='22' * 32, ix=1, pay=['att', 0], stake=None, coin=5 * ADA)], inputs=[0, 1])
+    ns1 = ['all', [['pk', U[1]['kh']]]]
+    att = base(supplied=[0, 1], attached=[dict(how='input', ns=ns1, via='witness', pass_obj=True, utxo=1)],
+               utxos=[dict(u0), dict(txid='22' * 32, ix=1, pay=['s', ns_hash(ns1)], stake=None, coin=5 * ADA)], inputs=[0, 1])
     alias_idx = next(i for i, k in enumerate(U) if i > 0 and k['payload'] == U[0]['payload'])
     dup = base(supplied=[0, alias_idx])
-    return [nofk, att, dup]
+    # multisig with an ordinary, an extended (U[14]) and an unavailable key, time-locked
+    ms = ['all', [['pk', U[1]['kh']], ['nofk', 1, [['pk', U[14]['kh']], ['any', [['pk', U[5]['kh']]]]]], ['after', 500000]]]
+    hm = ns_hash(ms)
+    holder = dict(txid='41' * 32, ix=0, pay=['k', U[6]['kh']], stake=None, coin=20 * ADA, script=ms)
+    locked = dict(txid='42' * 32, ix=0, pay=['s', hm], stake=None, coin=30 * ADA)
+    sup = [15, 14, 0, 1, 6, 14]
+    ref_spend = base(supplied=sup, utxos=[dict(u0), locked, holder], inputs=[0, 1],
+                     attached=[dict(how='input', ns=ms, via='ref', pass_obj=False, utxo=1, ref_utxo=2)])
+    ref_mint = base(supplied=sup, utxos=[dict(u0), holder], attached=[dict(how='mint', ns=ms, via='ref', ref_utxo=1)])
+    ref_wd = base(supplied=sup, utxos=[dict(u0), holder], attached=[dict(how='withdrawal', ns=ms, via='ref', ref_utxo=1)], auto=True)
+    ref_cert = base(supplied=sup, utxos=[dict(u0), holder], attached=[dict(how='cert', ns=ms, via='ref', ref_utxo=1)], auto=False)
+    look = base(supplied=sup, utxos=[dict(u0), locked, dict(holder, pay=['s', hm])], inputs=[0, 1],
+                attached=[dict(how='input', ns=ms, via='lookup', pass_obj=False, utxo=1, ref_utxo=2)])
+    selfc = base(supplied=sup, utxos=[dict(u0), dict(locked, script=ms)], inputs=[0, 1],
+                 attached=[dict(how='input', ns=ms, via='self', pass_obj=False, utxo=1)])
+    # the same script shipped for one purpose and referenced for another; an unrelated script in a hand-made reference input
+    other = ['any', [['pk', U[7]['kh']], ['pk', U[2]['kh']]]]
+    mixed = base(supplied=sup + [7], utxos=[dict(u0), locked, holder, dict(txid='43' * 32, ix=3, pay=['k', U[8]['kh']], stake=None,
+                                                                          coin=9 * ADA, script=other)],
+                 inputs=[0, 1], extra_refs=[3],
+                 attached=[dict(how='input', ns=ms, via='witness', pass_obj=True, utxo=1), dict(how='mint', ns=ms, via='ref', ref_utxo=2)])
+    return [nofk, att, dup, ref_spend, ref_mint, ref_wd, ref_cert, look, selfc, mixed]
 
 
 # ---------------------------------------------------------------- Coq rendering
@@ -313,7 +414,7 @@ def r_cred(c):
         return f'KeyH {hx(c[1])}'
     if c[0] == 's':
         return f'ScriptH {hx(c[1])}'
-    return 'ScriptH (hx "")'
+    raise ValueError(c)
 
 
 def r_ns(ns):
@@ -357,14 +458,38 @@ def r_voter(v):
     return ('VoterCommitteeHot' if v['kind'] == 'cc' else 'VoterDRep') + f' ({r_cred(v["cred"])})'
 
 
+def scenario_scripts(sc):
+    """every native script that occurs in the scenario (field, attached, carried by a UTxO)"""
+    l = list(sc['native_scripts'] or []) + [a['ns'] for a in sc['attached']] + [u['script'] for u in sc['utxos'] if u.get('script') is not None]
+    seen, out = set(), []
+    for ns in l:
+        k = json.dumps(ns)
+        if k not in seen:
+            seen.add(k); out.append(ns)
+    return out
+
+
 def r_bdesc(sc):
+    att = sc['attached']
     ins = [r_cred(sc['utxos'][i]['pay']) for i in sc['inputs']]
     col = [r_cred(sc['utxos'][i]['pay']) for i in sc['collateral']]
-    certs = [r_cert(c) for c in sc['certs']] + ['StakeDelegation (ScriptH (hx ""))' for a in sc['attached'] if a['how'] == 'cert']
-    wds = [r_cred(w['cred']) for w in sc['withdrawals']] + ['ScriptH (hx "")' for a in sc['attached'] if a['how'] == 'withdrawal']
+    certs = [r_cert(c) for c in sc['certs']] + [f'StakeDelegation (ScriptH {hx(ns_hash(a["ns"]))})' for a in att if a['how'] == 'cert']
+    wds = [r_cred(w['cred']) for w in sc['withdrawals']] + [f'ScriptH {hx(ns_hash(a["ns"]))}' for a in att if a['how'] == 'withdrawal']
     wo = 'None' if sc['witness_override'] is None else f'(Some {sc["witness_override"]}%N)'
+    refs = [r_ns(a['ns']) for a in att if a.get('via', 'witness') in ('ref', 'lookup')]
+    in_scripts = [r_ns(sc['utxos'][i]['script']) for i in sc['inputs'] if sc['utxos'][i].get('script') is not None]
+    ref_utxos = []
+    for a in att:
+        if a.get('via', 'witness') in ('ref', 'lookup') and a['ref_utxo'] not in ref_utxos:
+            ref_utxos.append(a['ref_utxo'])
+    for i in sc.get('extra_refs', []):
+        if i not in ref_utxos:
+            ref_utxos.append(i)
+    refin_scripts = [r_ns(sc['utxos'][i]['script']) for i in ref_utxos if sc['utxos'][i].get('script') is not None]
+    mint = [hx(ns_hash(a['ns'])) for a in att if a['how'] == 'mint']
     return ('(mkB ' + C.clist(ins) + ' ' + C.clist(col) + ' ' + C.clist([hx(h) for h in (sc['required_signers'] or [])]) + ' '
-            + C.clist([r_ns(n) for n in (sc['native_scripts'] or [])]) + ' ' + C.clist([r_ns(a['ns']) for a in sc['attached']]) + ' '
+            + C.clist([r_ns(n) for n in (sc['native_scripts'] or [])]) + ' ' + C.clist([r_ns(a['ns']) for a in att]) + ' '
+            + C.clist(refs) + ' ' + C.clist(in_scripts) + ' ' + C.clist(refin_scripts) + ' ' + C.clist(mint) + ' '
             + C.clist(certs) + ' ' + C.clist(wds) + ' ' + C.clist([r_voter(v) for v in sc['voters']]) + ' ' + wo + ')')
 
 
@@ -421,10 +546,12 @@ def r_case(sc, res, pp):
     keys = [U[i] for i in sc['supplied']]
     s = res['slice']
     sl = ('(mkSlice ' + ' '.join(r_hexlist(s[k]) for k in ('required_signers', 'inputs', 'certs', 'votes', 'withdrawals', 'native', 'required'))
-          + f' {s["witness_count"]}%N ' + r_pairs(s['fake']) + ')')
-    table = C.clist([f'(({hx(u["txid"])}, {u["ix"]}%N), {r_cred(u["pay"])})' for u in sc['utxos']])
+          + f' {s["witness_count"]}%N ' + r_pairs(s['fake']) + ' ' + r_hexlist(s['all_scripts']) + ' ' + r_hexlist(s['scripts']) + ')')
+    table = C.clist([f'(({hx(u["txid"])}, {u["ix"]}%N), ({r_cred(u["pay"])}, '
+                     + ('None' if u.get('script') is None else f'Some ({r_ns(u["script"])})') + '))' for u in sc['utxos']])
     pubs = sorted({(k['payload'], k['vk']) for k in keys if k['kind'] == 'ord'})
     h28 = {(k['vk'], k['kh']) for k in keys}
+    h28 |= {((b'\x00' + ns_enc(ns)).hex(), ns_hash(ns)) for ns in scenario_scripts(sc)}
     if pp:
         h28 |= {(vk.hex(), b224(vk).hex()) for vk, _ in pp['wits']}
         signed = ('(Some (mkSigned ' + hx(pp['tx'].hex()) + f' {pp["off"]}%N {len(pp["body"])}%N ' + hx(pp['txid'].hex()) + ' '
@@ -459,7 +586,7 @@ def render(items):
     return body
 
 
-def evaluate(cases, results, posts, budget=90000):
+def evaluate(cases, results, posts, budget=100000):
     """returns (mismatch_idx, oracle_idx, errors); shards are cut by literal size (elaboration of the literals dominates)"""
     mism, ofail, errs = set(), set(), []
     texts = []
@@ -520,6 +647,14 @@ def features(sc, pp):
     for k in ('collateral', 'certs', 'withdrawals', 'voters', 'attached'):
         if sc[k]:
             f.append(k)
+    for a in sc['attached']:
+        t = 'via:' + a.get('via', 'witness') + '/' + a['how']
+        if t not in f:
+            f.append(t)
+    if len({json.dumps(a['ns']) for a in sc['attached']}) < len(sc['attached']):
+        f.append('script-twice')
+    if sc.get('extra_refs'):
+        f.append('hand-made-reference-input')
     if sc['required_signers']:
         f.append('required_signers')
     if sc['native_scripts']:
@@ -607,7 +742,8 @@ def correspond(ctx, n_sign=None, n_slice=None):
         evaluations=len(cases), distinct_nontrivial=distinct,
         rule='scenario = real TransactionBuilder prepared with credentials from a random subset of {key/script inputs, collateral, '
              'required signers, nested native scripts (field), native scripts attached by add_script_input/add_minting_script/'
-             'add_withdrawal_script/add_certificate_script, 17 certificate kinds, key/script withdrawals, cc/drep/spo voters}, hashes drawn '
+             'add_withdrawal_script/add_certificate_script and supplied as object / separate reference UTxO / in the spent UTxO / by '
+             'context lookup, the same script for two purposes, hand-made reference inputs with unrelated or copied scripts, 17 certificate kinds, key/script withdrawals, cc/drep/spo voters}, hashes drawn '
              'from a universe of 14 ordinary + 9 extended keys (+ the same key pairs as other classes / extended form) or random; signing '
              'keys = pool keys, unrelated keys, duplicate objects, aliases of one key pair; force_skeys, auto_required_signers in '
              '{None,True,False}, witness_override. non-trivial = signed transaction with >=1 witness and >=5 features; distinct by hash',
@@ -616,7 +752,8 @@ def correspond(ctx, n_sign=None, n_slice=None):
         exception_histogram=err_hist, signed_transactions=sum(1 for p in posts if p), witnesses_verified=n_w,
         slice_only_cases=sum(1 for c in cases if not c['sign']),
         known_region_hits=known_hits,
-        compared='slice: 6 collectors + union + _witness_count + placeholder witnesses (exact) on the prepared builder; end to end: '
+        compared='slice: all_scripts / scripts (by script hash), 6 collectors + union + _witness_count + placeholder witnesses (exact) on the '
+                 'prepared builder; end to end: shipped native scripts, reference/spent-output scripts and needed script hashes of tx = model; '
                  'witness set of tx = model with reference signatures (byte exact), required set after build, ledger view read from the tx '
                  '= scenario; oracle: RFC 8032 verification of every witness over blake2b-256(body slice), sizes, no duplicate key, witness '
                  'hashes = supplied /\\ Ledger.required(tx) (all supplied when forced; legacy registration key tolerated)',
